@@ -367,6 +367,14 @@ func quickFault(schema string, p path, f string) bool {
 		case "boundary:-1", "boundary:65536", "boundary:9223372036854775808", "boundary:18446744073709551616", "boundary:1e400", "boundary:1.5":
 			return true
 		}
+		// the LARGEST values that still decode (uint16 / int64 / uint64) at shallow positions and in every request that is
+		// a bare number: arithmetic on them (x+1, x+limit) is where wrap-arounds live
+		if schema == "blocksreq" {
+			return true
+		}
+		if !deep && (f == "boundary:65535" || f == "boundary:9223372036854775807" || f == "boundary:18446744073709551615") {
+			return true
+		}
 		return !deep && f == "boundary:-0"
 	case "dupkey":
 		return !deep || f == "dupkey:null-after"
